@@ -43,13 +43,13 @@ Proof.
   rewrite arr_small_length by (rewrite app_length; cbn [length]; lia).
   rewrite encode_seq_length_app, crc_field_items_length.
   rewrite !encode_seq_length_cons, encode_seq_nil, !encode_uint_length, encode_bstr_length.
-  unfold blk_size, olen. lia.
+  unfold blk_size, olen. cbn [length]. lia.
 Qed.
 
 Lemma frag_items_length f : length (encode_seq (frag_items f)) = frag_part f.
 Proof.
   destruct f as [[o t]|]; cbn [frag_items frag_part].
-  - rewrite !encode_seq_length_cons, encode_seq_nil, !encode_uint_length. lia.
+  - rewrite !encode_seq_length_cons, encode_seq_nil, !encode_uint_length. cbn [length]. lia.
   - reflexivity.
 Qed.
 
@@ -68,14 +68,17 @@ Proof.
   rewrite !encode_seq_length_cons, encode_seq_nil, !encode_uint_length.
   rewrite (arr_small_length [CUint (create_time p); CUint (create_seq p)]) by (cbn; lia).
   rewrite !encode_seq_length_cons, encode_seq_nil, !encode_uint_length.
-  unfold pri_size, eid_size. lia.
+  unfold pri_size, eid_size. cbn [length]. lia.
 Qed.
+
+Lemma list_sum_cons x l : list_sum (x :: l) = (x + list_sum l)%nat.
+Proof. reflexivity. Qed.
 
 Lemma blocks_seq_length l :
   length (encode_seq (map (fun blk => CArr (cblock_items blk)) (map with_crc_block l))) = list_sum (map blk_size l).
 Proof.
   induction l as [|k l IH]; [reflexivity|].
-  cbn [map list_sum]. rewrite encode_seq_length_cons, IH.
+  cbn [map]. rewrite list_sum_cons, encode_seq_length_cons, IH.
   fold (encode_cblock (with_crc_block k)). rewrite cblock_with_crc_length. reflexivity.
 Qed.
 
@@ -102,6 +105,9 @@ Proof.
   revert l. induction b as [|b IH]; intros l; [reflexivity|].
   destruct l as [|x l]; [now rewrite !skipn_nil|]. cbn [skipn Nat.add]. apply IH.
 Qed.
+
+Lemma firstn_length_firstn {A} n (l : list A) : firstn (length (firstn n l)) l = firstn n l.
+Proof. revert l. induction n as [|n IH]; intros [|x l]; cbn; f_equal; auto. Qed.
 
 Lemma pyslice_split data (lo hi : Z) :
   0 <= lo <= hi ->
@@ -156,7 +162,7 @@ Lemma sum_fill d l :
                          - Z.of_nat (head_len (olen template_btsd)) - Z.of_nat (length template_btsd)).
 Proof.
   induction l as [|k l IH]; [cbn; lia|].
-  cbn [map list_sum]. rewrite npay_cons. rewrite !Nat2Z.inj_add, IH.
+  cbn [map]. rewrite !list_sum_cons, npay_cons. rewrite !Nat2Z.inj_add, IH.
   unfold tmpl_blk at 1 3, fill_blk at 1. destruct (is_pay k) eqn:E.
   - rewrite is_pay_set_btsd, E.
     assert (Hs : set_btsd (set_btsd k template_btsd) d = set_btsd k d) by reflexivity.
@@ -268,10 +274,9 @@ Section Loop.
     assert (Hlen : Z.of_nat (length d) = Z.min fs (plen - off)).
     { unfold d, frag_slice_lo, frag_slice_hi. rewrite pyslice_length by lia. fold plen. lia. }
     cbn [chain]. exists d. split; [reflexivity|]. split; [lia|]. split; [lia|]. split.
-    { unfold d, pyslice, frag_slice_lo, frag_slice_hi.
-      rewrite firstn_length, skipn_length. rewrite firstn_firstn. f_equal. lia. }
+    { unfold d, pyslice, frag_slice_lo, frag_slice_hi. symmetry. apply firstn_length_firstn. }
     split.
-    { unfold frag_at. fold t. rewrite (fill_template_size (Z.to_N off) (olen payload) d). fold t.
+    { unfold frag_at. rewrite (fill_template_size (Z.to_N off) (olen payload) d). fold t.
       assert (Hh : (head_len (olen d) <= head_len (olen payload))%nat).
       { apply head_len_mono. unfold olen. fold plen in Hlen. unfold plen in *. lia. }
       unfold fs, frag_size in *. unfold pse, pyld_size_enc in *. lia. }
